@@ -324,11 +324,12 @@ package server
 //@ func hasOperationBody serves C14
 //@   requires req != nil
 //@   modifies nothing
-//@   ensures [true-only-if-the-named-operation's-body-is-there] result ==> (req.Op == proto.Op_CREATE_STREAM ==> req.CreateStreamOp != nil) && (req.Op == proto.Op_SHRINK_ISR ==> req.ShrinkISROp != nil) && (req.Op == proto.Op_EXPAND_ISR ==> req.ExpandISROp != nil) && (req.Op == proto.Op_REPORT_LEADER ==> req.ReportLeaderOp != nil) && (req.Op == proto.Op_DELETE_STREAM ==> req.DeleteStreamOp != nil) && (req.Op == proto.Op_PAUSE_STREAM ==> req.PauseStreamOp != nil) && (req.Op == proto.Op_RESUME_STREAM ==> req.ResumeStreamOp != nil) && (req.Op == proto.Op_SET_STREAM_READONLY ==> req.SetStreamReadonlyOp != nil) && (req.Op == proto.Op_JOIN_CONSUMER_GROUP ==> req.JoinConsumerGroupOp != nil) && (req.Op == proto.Op_LEAVE_CONSUMER_GROUP ==> req.LeaveConsumerGroupOp != nil) && (req.Op == proto.Op_REPORT_CONSUMER_GROUP_COORDINATOR ==> req.ReportConsumerGroupCoordinatorOp != nil)
+//@   ensures [true-only-if-the-named-operation's-body-is-there] result ==> (req.Op == proto.Op_CREATE_STREAM ==> req.CreateStreamOp != nil && req.CreateStreamOp.Stream != nil) && (req.Op == proto.Op_SHRINK_ISR ==> req.ShrinkISROp != nil) && (req.Op == proto.Op_EXPAND_ISR ==> req.ExpandISROp != nil) && (req.Op == proto.Op_REPORT_LEADER ==> req.ReportLeaderOp != nil) && (req.Op == proto.Op_DELETE_STREAM ==> req.DeleteStreamOp != nil) && (req.Op == proto.Op_PAUSE_STREAM ==> req.PauseStreamOp != nil) && (req.Op == proto.Op_RESUME_STREAM ==> req.ResumeStreamOp != nil) && (req.Op == proto.Op_SET_STREAM_READONLY ==> req.SetStreamReadonlyOp != nil) && (req.Op == proto.Op_JOIN_CONSUMER_GROUP ==> req.JoinConsumerGroupOp != nil) && (req.Op == proto.Op_LEAVE_CONSUMER_GROUP ==> req.LeaveConsumerGroupOp != nil) && (req.Op == proto.Op_REPORT_CONSUMER_GROUP_COORDINATOR ==> req.ReportConsumerGroupCoordinatorOp != nil)
 //@ func (*Server).handleCreateStream serves C14
-//@   requires [the-operation-body-is-present] req != nil && req.CreateStreamOp != nil
+//@   requires [the-operation-body-is-present] req != nil && req.CreateStreamOp != nil && req.CreateStreamOp.Stream != nil
 //@   assumes s != nil && s.metadata != nil
 //@   call CreateStream requires [the-operation-body-is-present] arg2 != nil
+//@   call CreateStream requires [a-create-operation-carries-its-stream] arg2.Stream != nil
 //@ func (*Server).handleShrinkISR serves C14
 //@   requires [the-operation-body-is-present] req != nil && req.ShrinkISROp != nil
 //@   assumes s != nil && s.metadata != nil
